@@ -26,7 +26,7 @@ ASSUMPTIONS = ["out-of-envelope values are not judged (only acceptance inside th
                "value at the altitude the frame itself reports must not be inferred as BDS60",
                "T1 observes the isXX predicates of the repository itself; their soundness/completeness is what T2/T3 judge",
                "DF20 BDS 6,0 contents are generated with IAS within 10 kt of the Mach-consistent value at the frame's altitude"]
-REQUIRED = ["same_payload_under_another_header_first", "t0_random", "t1_df17", "t1_commb", "t1_empty", "t4_none", "t4_decided50", "t4_decided60", "t4_both", "t5_alt_le0",
+REQUIRED = ["same_payload_under_another_header_first", "t0_random", "t1_df17", "t1_commb", "t1_empty", "t4_none", "t4_decided50", "t4_decided60", "t4_both", "t5_alt_le0", "t5_metric_header_altitude",
             "t5_alt_pos"] + \
            ["t2_BDS%s" % r for r in ("10", "17", "20", "30", "40", "44", "45", "50", "60")] + \
            ["t3_BDS%s" % r for r in ("10", "17", "20", "30", "40", "44", "45", "50", "60")]
@@ -114,6 +114,11 @@ def b60(rng, df, force=None):
                         # the same kind of register under a Gillham (100-ft) altitude code, as older encoders send it
                         altft = rng.choice((rng.randrange(0, 451), rng.randrange(451, 601))) * 100
                         altcode = ralt.gillham_code13(altft)
+                    elif rng.random() < 0.2:
+                        # a metric header altitude (M = 1: 12 bits of metres); the bit in the Q position is then an ordinary value bit
+                        nm = rng.choice((rng.randrange(1, 4096), rng.randrange(1, 4096) | 16, 4095))
+                        altft = nm * 3.28084
+                        altcode = ralt.m_code13(nm)
                     m = rng.choice((0, 250, rng.randint(40, 250)))
                     cas = isa.mach2cas(m * 2.048 / 512.0, altft * isa.FT) / isa.KTS
                     ias = int(round(cas + rng.uniform(-9, 9)))
@@ -487,9 +492,13 @@ def m_t5(ctx, case):
         elif c < 0.8:
             n = rng.randrange(0, 41)
             altft, code = n * 25 - 1000, ralt.q_code13(n)
-        else:
+        elif c < 0.9:
             altft = rng.choice(list(range(-1200, 800, 100)) + list(range(1000, 60000, 1300)))
             code = ralt.gillham_code13(altft)
+        else:
+            nm = rng.choice((rng.randrange(1, 4096), rng.randrange(1, 4096) | 16))   # metric header (M = 1), Q-position bit set in half
+            altft, code = nm * 3.28084, ralt.m_code13(nm)
+            ctx.hit("t5_metric_header_altitude")
         m = rng.randint(60, 250)
         cas = isa.mach2cas(m * 2.048 / 512.0, altft * isa.FT) / isa.KTS
         off = rng.choice((-1, 1)) * rng.uniform(60, 250)
